@@ -1,4 +1,6 @@
-"""C08: constants of pybtex/textutils.py the rich-text model depends on."""
+"""C08: constants of pybtex/textutils.py the rich-text model depends on, and the case mapping of the running
+interpreter (`str.upper` / `str.lower` character by character, including the characters whose image is longer
+than one character)."""
 import tables
 
 
@@ -10,5 +12,72 @@ def gen_richtext():
     body += 'def terminators : List Str := %s\n\n' % tables.lean_strlist(list(textutils.terminators))
     body += '/-- pattern of `pybtex.textutils.whitespace_re` (used by `String.split()`); the model implements `\\s+`. -/\n'
     body += 'def whitespacePattern : String := %s\n\n' % tables.lean_str(textutils.whitespace_re.pattern)
+    body += ('/-- `whitespace_re.flags` (32 = `re.UNICODE` only: `\\s` is the Unicode white space of the model; `re.ASCII` = 256 '
+             'would narrow it) -/\n')
+    body += 'def whitespaceFlags : Nat := %d\n\n' % int(textutils.whitespace_re.flags)
+    body += '/-- pattern and flags of `pybtex.textutils.delimiter_re` (what `abbreviate()` splits at); the model implements `([\\s\\-])`. -/\n'
+    body += 'def delimiterPattern : String := %s\n' % tables.lean_str(textutils.delimiter_re.pattern)
+    body += 'def delimiterFlags : Nat := %d\n\n' % int(textutils.delimiter_re.flags)
     body += 'end Pybtex.Gen\n'
     return 'RichText.lean', body
+
+
+def _multi(fn):
+    out = []
+    for cp in range(0x110000):
+        if 0xD800 <= cp <= 0xDFFF:
+            continue
+        r = fn(chr(cp))
+        if len(r) != 1:
+            out.append((cp, [ord(x) for x in r]))
+    return out
+
+
+def _check_lookup(groups, fn):
+    """The grouped table, read the way `caseLookupG` of Model/UniCase.lean reads it, reproduces `fn` on every code point whose
+    image is one character (a generator that fails this keeps the old file and is reported by the check)."""
+    table = [(g[0][0], max(r[1] for r in g), g) for g in groups]
+    lo_all, hi_all = table[0][0], max(t[1] for t in table)
+    for cp in range(0x110000):
+        if 0xD800 <= cp <= 0xDFFF:
+            continue
+        want = fn(chr(cp))
+        if len(want) != 1:
+            continue
+        got = cp
+        if lo_all <= cp <= hi_all:
+            for lo, hi, rs in table:
+                if lo <= cp <= hi:
+                    for s, e, st, t in rs:
+                        if s <= cp <= e and (cp - s) % st == 0:
+                            got = t + (cp - s)
+                            break
+                    break
+        if got != ord(want):
+            raise AssertionError('case table wrong at U+%04X' % cp)
+
+
+@tables.generator
+def gen_unicode_upper():
+    """`chr(c).upper()` of the running interpreter: the single-character images as arithmetic runs (the same encoding as
+    `Gen.lowerRuns`), the longer images (ß -> SS ...) as an explicit table; and the longer images of `.lower()`."""
+    from tablegen.unicode import _case_runs
+    runs, multi, n = _case_runs(str.upper)
+    groups = [runs[i:i + 16] for i in range(0, len(runs), 16)]
+    _check_lookup(groups, str.upper)
+    body = 'namespace Pybtex.Gen\n\n'
+    body += ('/- `chr(c).upper()` of the running interpreter for the %d code points it changes into ONE other character, as %d runs\n'
+             '   (first, last, step, image of first). -/\n' % (n, len(runs)))
+    for k, g in enumerate(groups):
+        body += 'def upperRunsGroup%d : Nat × Nat × List (Nat × Nat × Nat × Nat) := (%d, %d, [%s])\n' % (
+            k, g[0][0], max(r[1] for r in g), ', '.join('(%d, %d, %d, %d)' % r for r in g))
+    body += ('/-- the runs in groups of 16, each with the interval (first, last) of code points its runs lie in -/\n'
+             'def upperRuns : List (Nat × Nat × List (Nat × Nat × Nat × Nat)) :=\n  [%s]\n\n' % ', '.join('upperRunsGroup%d' % k for k in range(len(groups))))
+    um = _multi(str.upper)
+    body += ('/-- the %d code points whose `.upper()` is NOT one character, with their images (223 = ß -> SS, 329 = ŉ -> ʼN ...) -/\n'
+             'def upperMultiFull : List (Nat × List Nat) :=\n  [%s]\n\n' % (len(um), ', '.join('(%d, [%s])' % (cp, ', '.join(map(str, im))) for cp, im in um)))
+    lm = _multi(str.lower)
+    body += ('/-- the code points whose `.lower()` is NOT one character, with their images (304 = İ -> i + U+0307) -/\n'
+             'def lowerMultiFull : List (Nat × List Nat) :=\n  [%s]\n\n' % ', '.join('(%d, [%s])' % (cp, ', '.join(map(str, im))) for cp, im in lm))
+    body += 'end Pybtex.Gen\n'
+    return 'UnicodeUpper.lean', body
